@@ -20,7 +20,7 @@
    longest permitted text name has 65534 bytes. *)
 From MptV Require Import C16.Locate.
 From MptV Require Import Base.Mem C16.IdentModel C16.IdentSpec C16.IdentProofs
-  C16.IdentWorld C16.IdentHeap C16.IdentProps C16.IdentOrig.
+  C16.IdentWorld C16.IdentHeap C16.IdentProps C16.IdentClass C16.IdentOrig.
 
 (* set, then read back: any byte string whose stored length fits 16 bit, any
    storage size, whatever the identifier held before (inline or allocated). *)
@@ -100,7 +100,9 @@ Theorem C16_inequal_iff_equal :
     exists s, iinequal h a b = Ok s /\ (s = SZero <-> (ics a, da) = (ics b, db)).
 Proof. exact inequal_iff_equal. Qed.
 
-(* every history of set / copy / clear / compare / inequal operations on any
+(* every history of set / copy / clear / compare / inequal operations AND of the
+   members of the C++ class (set_name, equal, name, operator=, destruction
+   followed by copy construction or by construction with a total size) on any
    number of identifiers of any sizes >= 16: what is observed after every step
    (result class, and length, charset, bytes of every identifier) is what the
    plain list-of-names specification yields; in particular no step faults. *)
@@ -143,6 +145,83 @@ Proof. exact new_capacity. Qed.
 Theorem C16_new_limit : forall len, new_size len = None <-> lim16 < len.
 Proof. exact new_limit. Qed.
 
+(* ---- the C++ class identifier (mpt++/identifier.cpp) ----
+   [xset_name], [xequal], [xname], [xassign], [xcopy_init], [xfini], [xinit]
+   (IdentModel.v) are the members written as compositions of the C operations;
+   the world operations OXSet / OXEqual / OXName / OXAssign / OXCtor / OXNew run
+   them on the slots of a world, and the step / history / heap-discipline
+   theorems above range over them as well ([op] has these constructors). *)
+
+(* set_name is mpt_identifier_set, operator= is mpt_identifier_copy (self
+   assignment included): every theorem about set / copy above holds for them *)
+Theorem C16_class_set_name_is_set :
+  forall w i name len, mstep w (OXSet i name len) = mstep w (OSet i name len).
+Proof. exact set_name_is_set. Qed.
+
+Theorem C16_class_assign_is_copy :
+  forall w i j, winv w -> mstep w (OXAssign i j) = mstep w (OCopy i (Some j)).
+Proof. exact assign_is_copy. Qed.
+
+(* equal(name, n) answers true exactly when the identifier holds that text name *)
+Theorem C16_class_equal_iff_equal :
+  forall h id d bs n,
+    idok h id d -> n <= length bs ->
+    exists b, xequal h id (Some bs) (Some n) = Ok b /\
+              (b = true <-> (ics id, d) = name_val (firstn n bs)).
+Proof. exact xequal_iff_equal. Qed.
+
+(* name() hands out exactly the stored bytes of a text name and NULL for any
+   other content; after set_name(bs) that is bs with its terminator *)
+Theorem C16_class_name_reads :
+  forall h id d, idok h id d ->
+    xname h id = Ok (if N.eqb (ics id) CS_UTF8 then Some d else None).
+Proof. exact xname_reads. Qed.
+
+Theorem C16_class_set_name_then_name :
+  forall h id d bs,
+    hinv h -> idok h id d -> length bs + 1 <= lim16 ->
+    exists h' id', xset_name h id (Some bs) (Some (length bs)) = Ok (h', id', true) /\
+                   xname h' id' = Ok (Some (bs ++ [0%N])) /\ imax id' = imax id.
+Proof. exact xset_name_then_name. Qed.
+
+(* copy construction (after the destructor of the object that occupied the slot):
+   the new object has the 16-byte layout whatever the source's size, holds the
+   source's bytes and charset, compares equal, name() agrees; the source object
+   is the identical record and still holds its bytes; every other object keeps
+   its content; the invariant (no dangling / doubly owned / unowned block) holds *)
+Theorem C16_class_copy_ctor_equal_src_untouched :
+  forall w i j a b db,
+    winv w -> i <> j -> nth_error (wids w) i = Some a -> nth_error (wids w) j = Some b ->
+    idok (wh w) b db ->
+    exists w' a',
+      mstep w (OXCtor i j) = Ok (w', ODone) /\ winv w' /\
+      absw w' = set_nth (absw w) i (ics b, db) /\
+      nth_error (wids w') j = Some b /\ idok (wh w') b db /\
+      nth_error (wids w') i = Some a' /\ idok (wh w') a' db /\ ics a' = ics b /\ imax a' = 12 /\
+      iinequal (wh w') a' b = Ok SZero /\
+      xname (wh w') a' = xname (wh w) b.
+Proof. exact ctor_copy_equal_src_untouched. Qed.
+
+(* identifier(total) (after the destructor of the previous object of the slot):
+   no name, inline, capacity total-4 (at most 252), the others untouched *)
+Theorem C16_class_ctor_unset :
+  forall w i a total,
+    winv w -> nth_error (wids w) i = Some a -> 16 <= total ->
+    exists w' a',
+      mstep w (OXNew i total) = Ok (w', ODone) /\ winv w' /\
+      absw w' = set_nth (absw w) i unset /\
+      nth_error (wids w') i = Some a' /\ idok (wh w') a' [] /\ external a' = false /\
+      imax a' = Nat.min (total - 4) 252 /\ xname (wh w') a' = Ok None.
+Proof. exact xnew_unset. Qed.
+
+(* running the destructor (set_name(0, 0)) on every object of ANY invariant
+   world leaves no live block, and every object without a name *)
+Theorem C16_class_destroy_all_no_live_block :
+  forall w, winv w ->
+    exists w', mexec w (map (fun i => OXSet i None (Some 0)) (seq 0 (length (wids w)))) = Some w' /\
+               winv w' /\ hlive (wh w') = [] /\ absw w' = repeat unset (length (wids w)).
+Proof. exact destroy_all_no_live. Qed.
+
 (* ---- non-vacuity ---- *)
 (* the hypotheses are met by every freshly initialised identifier of 16..256 bytes *)
 Example C16_fresh_ok :
@@ -181,6 +260,42 @@ Proof. vm_compute. reflexivity. Qed.
 Example C16_cleanup_example :
   mend (init_world [16; 16])
        [OSet 0 (Some ex_long) (Some 13); OSet 1 None (Some 20); OCopy 0 (Some 1)]
+  = Some 0.
+Proof. vm_compute. reflexivity. Qed.
+
+(* the C++ members on a 32-byte and a 16-byte object: a 14-byte name is inline
+   in the first; copy construction into the second slot puts it on 16 bytes of
+   storage, where it needs a block (1 live); name() and equal() read it back;
+   a raw set makes name() answer NULL; assignment of the 3 raw bytes releases
+   the block; identifier(24) leaves slot 0 without a name; self assignment *)
+Example C16_class_history_example :
+  mrun (init_world [32; 16])
+       [OXSet 0 (Some ex_long) (Some 13);
+        OXCtor 1 0;
+        OXName 1;
+        OXEqual 1 (Some ex_long) (Some 13);
+        OXSet 0 None (Some 3);
+        OXName 0;
+        OXAssign 1 0;
+        OXNew 0 24;
+        OXAssign 0 0]
+  = [Step ODone [(14, 1%N, ex_long ++ [0%N]); (0, 0%N, [])] 0;
+     Step ODone [(14, 1%N, ex_long ++ [0%N]); (14, 1%N, ex_long ++ [0%N])] 1;
+     Step (OName (Some (ex_long ++ [0%N]))) [(14, 1%N, ex_long ++ [0%N]); (14, 1%N, ex_long ++ [0%N])] 1;
+     Step (OEq true) [(14, 1%N, ex_long ++ [0%N]); (14, 1%N, ex_long ++ [0%N])] 1;
+     Step ODone [(3, 0%N, zeros 3); (14, 1%N, ex_long ++ [0%N])] 1;
+     Step (OName None) [(3, 0%N, zeros 3); (14, 1%N, ex_long ++ [0%N])] 1;
+     Step ODone [(3, 0%N, zeros 3); (3, 0%N, zeros 3)] 0;
+     Step ODone [(0, 0%N, []); (3, 0%N, zeros 3)] 0;
+     Step ODone [(0, 0%N, []); (3, 0%N, zeros 3)] 0].
+Proof. vm_compute. reflexivity. Qed.
+
+(* destruction of an object with an allocated name by copy construction over it,
+   and the final destructors: nothing stays allocated *)
+Example C16_class_cleanup_example :
+  mend (init_world [16; 32])
+       [OXSet 0 (Some ex_long) (Some 13); OXSet 1 (Some ex_text) (Some 3); OXCtor 0 1;
+        OXSet 1 None (Some 40); OXCtor 0 1; OXNew 1 16]
   = Some 0.
 Proof. vm_compute. reflexivity. Qed.
 
@@ -227,3 +342,11 @@ Print Assumptions C16_heap_discipline.
 Print Assumptions C16_new_capacity.
 Print Assumptions C16_new_limit.
 Print Assumptions C16_locate_refines_spec.
+Print Assumptions C16_class_set_name_is_set.
+Print Assumptions C16_class_assign_is_copy.
+Print Assumptions C16_class_equal_iff_equal.
+Print Assumptions C16_class_name_reads.
+Print Assumptions C16_class_set_name_then_name.
+Print Assumptions C16_class_copy_ctor_equal_src_untouched.
+Print Assumptions C16_class_ctor_unset.
+Print Assumptions C16_class_destroy_all_no_live_block.
